@@ -33,7 +33,7 @@ ENTRY h_multi_aggregate() {
   VASSERT(!sd || all_sd, "Shutdown reports true only if every child reported true");
 }
 // ---- simple processor
-static sdkt::SimpleSpanProcessor *g_sp; static int g_exports, g_exp_shutdowns; static bool g_lock_held_at_export = true;
+static sdkt::SimpleSpanProcessor *g_sp; static int g_exports, g_exp_shutdowns, g_exp_flushes; static bool g_lock_held_at_export = true, g_lock_free_at_shutdown = true, g_exp_flush_ret;
 struct Rec0 : sdkt::Recordable {
   void SetIdentity(const trace::SpanContext &, trace::SpanId) noexcept override {}
   void SetAttribute(nostd::string_view, const common::AttributeValue &) noexcept override {}
@@ -54,9 +54,22 @@ struct Exp : sdkt::SpanExporter {
     if (!g_sp->lock_.flag_.load() || spans.size() != 1) g_lock_held_at_export = false;
     return nondet_bool() ? sdk::common::ExportResult::kSuccess : sdk::common::ExportResult::kFailure;
   }
-  bool ForceFlush(std::chrono::microseconds) noexcept override { return nondet_bool(); }
-  bool Shutdown(std::chrono::microseconds) noexcept override { g_exp_shutdowns++; return nondet_bool(); }
+  bool ForceFlush(std::chrono::microseconds) noexcept override { g_exp_flushes++; g_exp_flush_ret = nondet_bool(); return g_exp_flush_ret; }
+  bool Shutdown(std::chrono::microseconds) noexcept override { g_exp_shutdowns++; if (g_sp && g_sp->lock_.flag_.load()) g_lock_free_at_shutdown = false; return nondet_bool(); }
 };
+// lifecycle: ForceFlush is the exporter's answer; destruction after an explicit Shutdown does not shut the exporter down again
+ENTRY h_simple_lifecycle() {
+  auto *sp = new sdkt::SimpleSpanProcessor(std::unique_ptr<sdkt::SpanExporter>(new Exp)); g_sp = sp;
+  bool explicit_shutdown = nondet_bool();
+  sp->OnEnd(std::unique_ptr<sdkt::Recordable>(new Rec0));
+  bool ff = sp->ForceFlush(std::chrono::microseconds(10));
+  VASSERT(g_exp_flushes == 1 && ff == g_exp_flush_ret, "simple processor: ForceFlush forwards to the exporter once and returns its answer");
+  if (explicit_shutdown) sp->Shutdown(std::chrono::microseconds(0));
+  g_sp = nullptr;
+  delete sp;
+  VASSERT(g_exp_shutdowns == 1, "simple processor: explicit Shutdown + destruction, or destruction alone, shut the exporter down exactly once");
+  VASSERT(g_exports == 1 && g_lock_held_at_export && g_lock_free_at_shutdown, "simple processor: one Export under the lock; the lock is free when the exporter is shut down");
+}
 ENTRY h_simple_processor() {
   auto *sp = new sdkt::SimpleSpanProcessor(std::unique_ptr<sdkt::SpanExporter>(new Exp)); g_sp = sp;
   sp->OnEnd(std::unique_ptr<sdkt::Recordable>(new Rec0));
